@@ -33,7 +33,7 @@ const livenessBound = 30 * time.Second
 
 // settleBound bounds waits that are not liveness oracles; missing it makes the
 // run inconclusive, never a violation.
-const settleBound = 45 * time.Second
+const settleBound = 20 * time.Second
 
 type pending struct {
 	done  chan struct{}
@@ -59,6 +59,11 @@ func bounded(fn func()) *pending {
 }
 
 func (p *pending) wait(d time.Duration) bool {
+	select {
+	case <-p.done:
+		return true
+	default:
+	}
 	select {
 	case <-p.done:
 		return true
@@ -95,6 +100,44 @@ func (p *pending) panicked() any {
 	p.mu.Lock()
 	defer p.mu.Unlock()
 	return p.pan
+}
+
+// A guard keeps a phase within its time budget when something is badly broken:
+// a case that ran into a 30 s watchdog costs half a minute, so after two such
+// cases the rest of the phase is skipped (and the run says so). Wall time is
+// used for this budget decision only, never for a verdict.
+type guard struct {
+	r       *mon.Run
+	phase   string
+	mu      sync.Mutex
+	strikes int
+	skipped int
+}
+
+func (g *guard) run(fn func()) {
+	g.mu.Lock()
+	if g.strikes >= 2 {
+		g.skipped++
+		g.mu.Unlock()
+		return
+	}
+	g.mu.Unlock()
+	t0 := time.Now()
+	fn()
+	if time.Since(t0) > 25*time.Second {
+		g.mu.Lock()
+		g.strikes++
+		g.mu.Unlock()
+	}
+}
+
+func (g *guard) done() {
+	g.mu.Lock()
+	defer g.mu.Unlock()
+	if g.skipped > 0 {
+		g.r.Count(g.phase+".cases_skipped_after_repeated_timeouts", g.skipped)
+		g.r.Inconclusive(fmt.Sprintf("%s: %d cases skipped after two cases ran into a watchdog", g.phase, g.skipped))
+	}
 }
 
 func us(n int) time.Duration { return time.Duration(n) * time.Microsecond }
